@@ -17,15 +17,22 @@ LEAN_TARGETS = ["Asynkit.Props.C07", "Asynkit.Lemmas.GenEqC07"]
 PROPS_FILES = ["Asynkit/Props/C07.lean", "Asynkit/Lemmas/GenEqC07.lean"]
 DRIVERS = ["Monitor"]
 TRUSTED = [
-    "Lean 4.33 kernel; axioms ⊆ {propext, Classical.choice, Quot.sound} (audited per theorem each run)",
-    "hand-written model Asynkit/Model/Monitor.lean of src/asynkit/monitor.py:50-280, tied to the code by the "
-    "op-by-op differential correspondence of this run (lean/Drivers/Monitor.lean, raw send/throw driving)",
-    "CPython coroutine objects (send/throw/close on created/suspended/finished coroutines, PEP 479, "
-    "'cannot reuse', 'ignored GeneratorExit') and PEP-380 delegation are modelled (Monitor.SCoro), not "
-    "verified; validated by the same correspondence stream",
-    "Asynkit/Model/MonProg.lean (body language interpreter) only supplies bodies for the correspondence; the "
-    "theorems quantify over every MBody/SBody",
-    "Task-driven and await_sync-driven runs are compared with the raw-driven run of the same script "
+    'Lean 4.33 kernel; axioms ⊆ {propext, Classical.choice, Quot.sound} (audited per theorem each run)',
+    'translated, not trusted: Monitor.oob, _asend (entry and every resumption of the relay loop), aawait, athrow,'
+    ' aclose, start, try_await and the six BoundMonitor methods are re-translated from monitor.py on every run '
+    '(translator/monitor2lean.py -> Gen/Monitor.lean) and proved equal to '
+    'asendStart/asendResume/callStart/callResume/boundStart/boundResume of Asynkit/Model/Monitor.lean '
+    '(Lemmas/GenEqC07.lean, 46 theorems)',
+    'hand-written: the runtime vocabulary Model/MonitorRt.lean (isinstance tests of the except clauses, PEP 479 '
+    "on leaving a frame, athrow's (type, value, tb) triple without CPython's normalisation); the op-by-op "
+    'correspondence of this run (lean/Drivers/Monitor.lean, raw send/throw driving) still runs model and code '
+    'side by side',
+    "CPython coroutine objects (send/throw/close on created/suspended/finished coroutines, PEP 479, 'cannot "
+    "reuse', 'ignored GeneratorExit') and PEP-380 delegation are modelled (Monitor.SCoro), not verified; "
+    'validated by the same correspondence stream',
+    'Asynkit/Model/MonProg.lean (body language interpreter) only supplies bodies for the correspondence; the '
+    'theorems quantify over every MBody/SBody',
+    'Task-driven and await_sync-driven runs are compared with the raw-driven run of the same script '
     "(asyncio.Task.__step and asynkit.await_sync themselves are outside this property's model)",
 ]
 ASSUMPTIONS = [
